@@ -2,3 +2,4 @@
 From Coq Require Import NArith.
 Definition max_msg_size_bytes : N := 1048600%N.
 Definition head_buf_size : N := 40960%N.
+Definition max_files_to_remove : N := 4%N.
